@@ -574,7 +574,7 @@ fn body(ctx: &Ctx) -> (Summary, Meta) {
         sum.total.outcome(format!("impl={g:?},spec={w:?}"));
     }
     let meta = Meta {
-        rule: "every relation word over {<,=,>} up to the length bound, realised as prefix sums for f64/f32/i32/i64/u32/u8/u64 (i64, u64 also with unit steps on a base beyond 2^53), each as contiguous array, every-2nd-element view of a poisoned array and reversed view; every non-empty NaN mask on every word up to the NaN bound (f64, f32); long words (one base relation + <= 2 deviations; NaN at every position); run-structured words (every word of 2 runs, and of 3 runs with all / selected boundaries) up to length 2080; every word also realised with the type's extreme values (+-inf, MIN/MAX) in place of its largest and smallest level. Oracle: classifier written from the statement (counts of <,=,>); NaN: never Rising. states = distinct (implementation result, spec class, last relation) triples reached = reachable states of the product of the implementation automaton and the spec automaton. Non-trivial = word of length >= 2 or NaN vector. Phase float-progressions: x_i = fl(b + i*step) for b = 2^24 - k (f32) / 2^53 - k (f64), k < 8, step in {1/2,1,2,3}, 3..12 members, both signs - progressions that cross the power of two where the float spacing doubles; relations read off the actual values. Phase builder-validation: every relation word of length 2..4 (5) x every NaN mask handed to Interp1DBuilder.x (with Linear, Linear+extrapolate and four CubicSpline configurations incl. Periodic), Interp2DBuilder.x / .y, and as the y (x) axis of a grid whose other axis is a valid view into the same allocation starting at the same element (row / column of one table, stride-0 broadcast): accepted iff strictly rising.".into(),
+        rule: "every relation word over {<,=,>} up to the length bound, realised as prefix sums for f64/f32/i32/i64/u32/u8/u64 (i64, u64 also with unit steps on a base beyond 2^53), each as contiguous array, every-2nd-element view of a poisoned array and reversed view; every non-empty NaN mask on every word up to the NaN bound (f64, f32); long words (one base relation + <= 2 deviations; NaN at every position); run-structured words (every word of 2 runs, and of 3 runs with all / selected boundaries) up to length 2080; every word also realised with the type's extreme values (+-inf, MIN/MAX) in place of its largest and smallest level. Oracle: classifier written from the statement (counts of <,=,>); NaN: never Rising. states = distinct (implementation result, spec class, last relation) triples reached = reachable states of the product of the implementation automaton and the spec automaton. Non-trivial = word of length >= 2 or NaN vector. Phase float-progressions: x_i = fl(b + i*step) for b = 2^24 - k (f32) / 2^53 - k (f64), k < 8, step in {1/2,1,2,3}, 3..12 members, both signs - progressions that cross the power of two where the float spacing doubles; relations read off the actual values. Phase builder-validation: every relation word of length 2..4 (5) x every NaN mask handed to Interp1DBuilder.x (with Linear, Linear+extrapolate and four CubicSpline configurations incl. Periodic), Interp2DBuilder.x / .y on square grids and on non-square grids whose other (valid, explicit) axis has 2 or len+3 knots, and as the y (x) axis of a grid whose other axis is a valid view into the same allocation starting at the same element (row / column of one table, stride-0 broadcast): accepted iff strictly rising.".into(),
         bounds: format!("relation words of length 0..{maxlen} (exhaustive: {} words); NaN masks on words of length <= {nanmax}; long words of lengths {:?}{}", (0..=maxlen).map(|l| 3u64.pow(l as u32)).sum::<u64>(), if quick { longs.clone() } else { vec![14, 130] }, if quick { "" } else { " (every length in the closed interval)" }),
         assumptions: vec![],
         extra: vec![("product_states".into(), Json::Arr(st.iter().map(|(g, w, l)| Json::str(&format!("{g:?}/{w:?}/{l}"))).collect()))],
@@ -677,6 +677,13 @@ fn builder_phase(len: usize, out: &mut JobOut) {
             let d2 = Array2::<f64>::zeros((m, m));
             judge("Interp2D.x", catch(|| Interp2DBuilder::new(d2.view()).x(va.view()).build().map(|_| ())), rising, out);
             judge("Interp2D.y", catch(|| Interp2DBuilder::new(d2.view()).y(va.view()).build().map(|_| ())), rising, out);
+            // non-square grids: the other axis (explicit, valid) is shorter / longer than v
+            for other in [2usize, m + 3] {
+                let o = Array1::from((0..other).map(|i| i as f64 * 0.5 - 1.0).collect::<Vec<_>>());
+                let (dxo, dox) = (Array2::<f64>::zeros((m, other)), Array2::<f64>::zeros((other, m)));
+                judge(if other == 2 { "Interp2D(x = v, y of 2 knots)" } else { "Interp2D(x = v, y of len+3 knots)" }, catch(|| Interp2DBuilder::new(dxo.view()).x(va.view()).y(o.view()).build().map(|_| ())), rising, out);
+                judge(if other == 2 { "Interp2D(x of 2 knots, y = v)" } else { "Interp2D(x of len+3 knots, y = v)" }, catch(|| Interp2DBuilder::new(dox.view()).x(o.view()).y(va.view()).build().map(|_| ())), rising, out);
+            }
             // x = column 0 (valid unless v[0] is NaN), y = row 0 = v of one table
             let mut table = Array2::<f64>::from_elem((m, m), 9.0);
             for i in 0..m {
